@@ -34,9 +34,10 @@ PROPERTIES = {
                 "also compared with the model; arbitrary bytes: outcome kind, position and Defs() of two runs under "
                 "recover()+timeout compared with the model.",
         "note": _NOTE + " What the model cannot show (other runtime panics, real termination time) is covered only by running the "
-                        "implementation under recover() and a 2 s timeout. Locality holds for corruptions that leave the first token "
-                        "of the corrupted definition scannable (a NUL / invalid UTF-8 byte as the very first byte after a BS_, NS_, BO_ "
-                        "or SG_ definition is raised by that definition's one-token lookahead; reported as a design-inherent limitation).",
+                        "implementation under recover() and a 2 s timeout. KNOWN FINDING " + "C12-lookahead-scanner-error-drops-previous-definition"
+                        ": a NUL / invalid UTF-8 byte as the very first byte after a BS_, NS_, BO_ or SG_ definition (or directly after "
+                        "the line end of a BU_ / unknown line) is reported by the scanner while that definition is still reading, so it "
+                        "is missing from Defs(); exactly these cases are excluded, every other locality failure is a violation.",
         "technique": "Coq proof about a Gallina model + differential correspondence of model and code",
         "design_ref": "5.12",
     },
@@ -51,7 +52,8 @@ RULES = {
            "(c04-def-<kind>) plus the strconv oracle stream (num)",
     "C12": "(a) c12a-<operator>: every definition of generated files x {truncate before a mandatory token, delete a mandatory token, "
            "replace a mandatory token by an illegal character ($ ? NUL 0xFF truncated/surrogate UTF-8), truncate inside a string, "
-           "unterminated string, oversized number, keyword replaced by $}; (b) c12b-<generator>-<outcome>: grammar outputs with 1-3 byte "
+           "unterminated string, oversized number, keyword replaced by $, keyword replaced by NUL / 0xFF / truncated 2-byte "
+           "sequence (illegal-first-byte, counted per kind of the preceding definition; the witness BO_ 1 M: 8 N\\n\\x00 first)}; (b) c12b-<generator>-<outcome>: grammar outputs with 1-3 byte "
            "edits, inserted invalid UTF-8/NUL/BOM, huge and malformed numbers, deep repetition (200..1700 fragments), random bytes, "
            "random DBC-alphabet text, token soup, integer-conversion probes; non-trivial = error or at least one definition; "
            "distinct by text hash",
@@ -68,17 +70,59 @@ ASSUME = [
 ]
 
 
+KNOWN_ID = "C12-lookahead-scanner-error-drops-previous-definition"
+# definition kinds whose parseFrom is still reading when the first byte of the next definition is scanned:
+# one-token lookahead (BS_ unless its full form, NS_, BO_, SG_ incl. the last signal of a message) and, only when the
+# byte directly follows the line end, the kinds that consume the newline token (BU_, unknown lines: scanning '\n'
+# reads one character ahead)
+_PEEKING = {"bittiming", "newsymbols", "message", "message-sg", "signal"}
+_NEWLINE = {"nodes", "unknown"}
+
+
+def make_known_matcher(counts):
+    entry = next((k for k in vlib.load_known().get("known", []) if k.get("id") == KNOWN_ID), None)
+
+    def matcher(obs):
+        """obs = 'c12a case=<n> <k> <start> <op> prev=<kind> byte=<hex> adj=<0|1> text=<hex> failed=<clause>
+        expected-defs=<n> observed-defs=<m>' (ocaml/parser_main.ml)"""
+        if entry is None or not obs.startswith("c12a "):
+            return None
+        f = dict(x.split("=", 1) for x in obs.split() if "=" in x)
+        if " illegal-first-byte " not in obs or f.get("failed") != "locality-defs-so-far":
+            return None
+        if f.get("byte") not in ("00", "ff", "c3"):
+            return None
+        prev, adj = f.get("prev"), f.get("adj")
+        if not (prev in _PEEKING or (prev in _NEWLINE and adj == "1")):
+            return None
+        try:
+            if int(f["expected-defs"]) - int(f["observed-defs"]) != 1:
+                return None
+        except (KeyError, ValueError):
+            return None
+        key = "%s/%s" % (prev, f.get("byte"))
+        counts[key] = counts.get(key, 0) + 1
+        return entry["line"]
+
+    return matcher
+
+
 def harness_args(pid, tier, seed):
     if pid == "C04":
         return ["c04", seed] + ([6000, 40] if tier == "quick" else [60000, 40])
-    return ["c12", seed] + ([220, 25, 25000] if tier == "quick" else [3000, 30, 400000])
+    return ["c12", seed] + ([170, 25, 22000] if tier == "quick" else [3000, 30, 400000])
 
 
 def run(res, replay=None):
     pid = res.id
     vlib.proof_stage(res)
+    counts = {}
     vlib.standard_run(
         res, "parser", harness_args(pid, res.tier, res.seed), "parser", RULES[pid], ASSUME,
         corr_name="Parse()/Defs() of pkg/dbc = extracted Coq parser (outcome kind, error position, definitions) on every "
                   "generated text; strconv/unicode oracles = their models (harness/parser | ocaml/parser_main.ml)",
-        timeout=3000)
+        timeout=3000, known_matcher=make_known_matcher(counts) if pid == "C12" else None)
+    if pid == "C12":
+        res.cov["known_finding_cases"] = {"id": KNOWN_ID, "total": sum(counts.values()),
+                                          "by_previous_kind_and_byte": dict(sorted(counts.items())),
+                                          "witness": "c12a case=0: BO_ 1 M: 8 N\\n\\x00 (replayed first on every run)"}
